@@ -395,6 +395,10 @@ func (db *SingleBucketBackend) PutObject(
 		return result, invalidObjectName(objectName)
 	}
 
+	if meta == nil {
+		// "The map containing meta may be nil"; MergeMetadata fills it.
+		meta = make(map[string]string)
+	}
 	err = gofakes3.MergeMetadata(db, bucketName, objectName, meta)
 	if err != nil {
 		return result, err
